@@ -39,6 +39,7 @@ type inlineReport struct {
 	Removed   []string `json:"removed_helpers"` // helper declarations dropped after inlining
 	Kept      []string `json:"kept_calls"`      // "caller -> callee: reason" for new helpers left in place
 	NewFuncs  []string `json:"functions_not_in_the_baseline"`
+	Renamed   []string `json:"baseline_functions_renamed"`
 	Unchanged bool     `json:"sources_unchanged"`
 }
 
@@ -141,6 +142,26 @@ func normaliseSources(repoDir string, env []string, buildFlags []string) (map[st
 				}
 			}
 		}
+	}
+	if dumpShapes {
+		shapes := map[string]any{}
+		for obj, fd := range in.decls {
+			var ws []string
+			for w := range funcWords(fd) {
+				ws = append(ws, w)
+			}
+			sort.Strings(ws)
+			shapes[declKey(fd)] = map[string]any{"sig": funcSigString(obj), "words": ws}
+		}
+		b, _ := json.MarshalIndent(shapes, " ", " ")
+		fmt.Println(string(b))
+		os.Exit(0)
+	}
+	// renamed baseline functions: a baseline name that no longer exists is matched with the new
+	// function of identical signature whose body resembles it most (callees and string
+	// constants); the match keeps its place in the decomposition (it is not inlined).
+	for k := range renamedBaseline(in, base) {
+		base[k] = true
 	}
 	// candidates: not in the baseline, not named by tests, no defer/recover/go/labels, not generic
 	for obj, fd := range in.decls {
@@ -1200,4 +1221,116 @@ func deepCopy(v reflect.Value) reflect.Value {
 	default:
 		return v
 	}
+}
+
+
+// ---- renamed baseline functions ----
+
+// baselineShapes (rules/baseline_functions.json, "shapes") records for every baseline function
+// its signature string and the multiset of names it mentions; a function of today's tree that
+// is not in the baseline but has the signature of a *missing* baseline function and shares
+// most of its vocabulary is that function under a new name.
+func renamedBaseline(in *inliner, base map[string]bool) map[string]bool {
+	out := map[string]bool{}
+	b, err := os.ReadFile(filepath.Join(rulesDir, "baseline_functions.json"))
+	if err != nil {
+		return out
+	}
+	var doc struct {
+		Shapes map[string]struct {
+			Sig   string   `json:"sig"`
+			Words []string `json:"words"`
+		} `json:"shapes"`
+	}
+	if json.Unmarshal(b, &doc) != nil || len(doc.Shapes) == 0 {
+		return out
+	}
+	present := map[string]bool{}
+	for _, fd := range in.decls {
+		present[declKey(fd)] = true
+	}
+	type cand struct {
+		key   string
+		sig   string
+		words map[string]bool
+	}
+	var news []cand
+	for obj, fd := range in.decls {
+		k := declKey(fd)
+		if base[k] {
+			continue
+		}
+		news = append(news, cand{k, funcSigString(obj), funcWords(fd)})
+	}
+	sort.Slice(news, func(i, j int) bool { return news[i].key < news[j].key })
+	var missing []string
+	for k := range doc.Shapes {
+		if !present[k] {
+			missing = append(missing, k)
+		}
+	}
+	sort.Strings(missing)
+	taken := map[string]bool{}
+	for _, mk := range missing {
+		sh := doc.Shapes[mk]
+		best, bestScore, second := "", 0.0, 0.0
+		for _, c := range news {
+			if taken[c.key] || c.sig != sh.Sig {
+				continue
+			}
+			inter := 0
+			for _, w := range sh.Words {
+				if c.words[w] {
+					inter++
+				}
+			}
+			union := len(sh.Words) + len(c.words) - inter
+			score := 1.0
+			if union > 0 {
+				score = float64(inter) / float64(union)
+			}
+			if score > bestScore {
+				best, second, bestScore = c.key, bestScore, score
+			} else if score > second {
+				second = score
+			}
+		}
+		if best != "" && bestScore >= 0.5 && bestScore > second {
+			out[best] = true
+			taken[best] = true
+			in.rep.Renamed = append(in.rep.Renamed, mk+" -> "+best)
+		}
+	}
+	return out
+}
+
+func funcSigString(obj *types.Func) string {
+	sig := obj.Type().(*types.Signature)
+	q := func(p *types.Package) string { return p.Path() }
+	s := types.TypeString(sig, q)
+	if r := sig.Recv(); r != nil {
+		s = "(" + types.TypeString(r.Type(), q) + ")." + s
+	}
+	return s
+}
+
+// funcWords: the identifiers of called functions / selected members and the string constants a body mentions.
+func funcWords(fd *ast.FuncDecl) map[string]bool {
+	w := map[string]bool{}
+	ast.Inspect(fd.Body, func(n ast.Node) bool {
+		switch x := n.(type) {
+		case *ast.SelectorExpr:
+			w["."+x.Sel.Name] = true
+		case *ast.BasicLit:
+			if x.Kind == token.STRING {
+				w[x.Value] = true
+			}
+		case *ast.CallExpr:
+			if id, ok := x.Fun.(*ast.Ident); ok && id.Name != fd.Name.Name {
+				w[id.Name+"()"] = true
+			}
+		}
+		return true
+	})
+	return w
 }
